@@ -14,6 +14,7 @@ Terms (hashable tuples):
 """
 from mir import natural_loops, callee_name, place_key
 
+FACTS = None   # set by the check driver so promoted constants can be resolved
 INT_RANGES = {}
 for w in (8, 16, 32, 64, 128):
     INT_RANGES['u%d' % w] = (0, (1 << w) - 1)
@@ -251,6 +252,10 @@ class Explorer:
                 v = 'bits:' + o['bits']
             else:
                 v = o.get('val')
+            if v is None and 'promoted' in o:
+                pv = self.promoted_value(o['promoted'])
+                if pv is not None:
+                    return pv
             return ('const', v, o['ty']['s'])
         if k in ('copy', 'move'):
             return self.place_term(store, o['place'])[1]
@@ -310,6 +315,30 @@ class Explorer:
         if k == 'repeat':
             return ('repeat', self.operand(store, r['op']), r['n'])
         return ('other', r.get('s', '?'))
+
+    def promoted_value(self, n):
+        """Value of a promoted constant of this body whose bytes the driver could not print (e.g. `&(0xDC00..=0xDFFF)`):
+        the return term of the promoted MIR body."""
+        if FACTS is None:
+            return None
+        base = self.body.path
+        if '::{promoted#' in base:
+            return None
+        pb = FACTS.bodies.get(f"{base}::{{promoted#{n}}}")
+        if pb is None:
+            return None
+        key = ('promoted', n)
+        if key in self._modified:
+            return self._modified[key]
+        self._modified[key] = None
+        ex = Explorer(pb, max_paths=8)
+        ps = [p for p in ex.explore() if p.end and p.end[0] == 'return']
+        val = ps[0].ret if len(ps) == 1 else None
+        # a reference to the promoted body's own local: keep the value, not the (foreign) location
+        if val is not None and val[0] == 'ref' and val[1][0] == 'loc' and len(val[1]) > 2:
+            val = ('ref', val[1][2])
+        self._modified[key] = val
+        return val
 
     # ----- loops
     def modified_in(self, blocks):
